@@ -356,7 +356,7 @@ Theorem net_linkage net iso :
   let arcs := snd (complex_graph net iso) in
   let k := length cs in
   let L := linkage_classes arcs k in
-  n_linkage (compute_summary net iso 0) = length L /\
+  (forall r, n_linkage (compute_summary net iso r) = length L) /\
   NoDup (concat L) /\
   (forall y, In y (concat L) <-> exists i, i < k /\ y = nn i) /\
   (forall c, In c L -> NoDup c /\ c <> []) /\
@@ -364,7 +364,7 @@ Theorem net_linkage net iso :
 Proof.
   intros cs arcs k L. pose proof (complex_graph_arcs_ok net iso) as OK. fold cs arcs k in OK.
   destruct (linkage_spec arcs k OK) as (Q1 & Q2 & Q3 & _).
-  split; [rewrite compute_summary_eq; reflexivity|]. split; [exact Q1|]. split; [exact Q2|]. split; [exact Q3|].
+  split; [intros r; rewrite compute_summary_eq; reflexivity|]. split; [exact Q1|]. split; [exact Q2|]. split; [exact Q3|].
   intros i j Hi Hj. apply same_class_iff; assumption.
 Qed.
 
@@ -377,6 +377,25 @@ Theorem net_weak_rev net iso r :
 Proof.
   intros arcs k. pose proof (complex_graph_arcs_ok net iso) as OK. fold arcs k in OK.
   rewrite compute_summary_eq. simpl. fold arcs k. split; [apply weak_rev_spec | apply weak_rev_arcs]; exact OK.
+Qed.
+
+(** fuel sufficiency, stated on its own: none of the closures the model computes (undirected for the classes, forward and
+    backward for strong connectivity) ever runs out of the fuel k + 1 *)
+Theorem net_fuel net iso u :
+  let arcs := snd (complex_graph net iso) in
+  let k := length (fst (complex_graph net iso)) in
+  u < k ->
+  saturate (und_nbr arcs) (S k) [nn u] <> None /\
+  saturate (succs arcs) (S k) [nn u] <> None /\
+  saturate (preds arcs) (S k) [nn u] <> None.
+Proof.
+  intros arcs k Hu. pose proof (complex_graph_arcs_ok net iso) as OK. fold arcs k in OK.
+  assert (F : forall nbr, (forall a b, In b (nbr a) -> In b (nodes k)) -> saturate nbr (S k) [nn u] <> None).
+  { intros nbr Hn. apply (@saturate_fuel (nodes k) nbr Hn).
+    - repeat constructor. intros [].
+    - intros x [<-|[]]. apply nodes_in. eauto.
+    - rewrite nodes_length. simpl. lia. }
+  split; [apply F; apply (und_nodes arcs k OK)|]. split; [apply F; apply (succs_nodes arcs k OK) | apply F; apply (preds_nodes arcs k OK)].
 Qed.
 
 (* ------------------------------------------------------------------ non-vacuity *)
